@@ -21,7 +21,34 @@ pub fn pick_det_kind(rng: &mut Prng) -> Kind {
 }
 
 pub fn gen_seed_bytes(rng: &mut Prng, n: usize) -> Vec<u8> {
-    match rng.below(13) {
+    match rng.below(15) {
+        13 | 14 => {
+            // all words cancel: their wrapping SUM is zero, or their XOR is zero, at 32- or 64-bit width
+            // (a checksum-style "is it all zero?" test collides with such seeds)
+            let mut v = rng.bytes(n);
+            if rng.chance(1, 4) {
+                // few distinct values: e.g. [7, 7, 0, 0]
+                let x = rng.u64().to_le_bytes();
+                for (i, b) in v.iter_mut().enumerate() {
+                    *b = if (i / 8) % 2 == 0 || rng.chance(1, 2) { x[i % 8] } else { 0 };
+                }
+            }
+            let w = if n >= 16 && rng.chance(1, 2) { 8 } else { 4 };
+            let words = n / w;
+            let use_xor = rng.chance(1, 2);
+            let mut acc: u64 = 0;
+            for k in 0..words - 1 {
+                let mut a = [0u8; 8];
+                a[..w].copy_from_slice(&v[k * w..k * w + w]);
+                let x = u64::from_le_bytes(a);
+                acc = if use_xor { acc ^ x } else { acc.wrapping_add(x) };
+            }
+            let last = if use_xor { acc } else { 0u64.wrapping_sub(acc) };
+            let lb = last.to_le_bytes();
+            let k = words - 1;
+            v[k * w..k * w + w].copy_from_slice(&lb[..w]);
+            v
+        }
         10 => {
             // two words that are additive inverses (the `+` scramblers then output 0), at 32- or 64-bit width
             let mut v = rng.bytes(n);
